@@ -7,8 +7,8 @@ f, old, new = sys.argv[1:4]
 cmd = sys.argv[i + 1:]
 d = tempfile.mkdtemp(prefix="verif-mut-", dir="/var/tmp")
 try:
-    shutil.copytree("/repo/src", d + "/src")
-    shutil.copy("/repo/Cargo.toml", d); shutil.copy("/repo/Cargo.lock", d)
+    SRC = os.environ.get("MUT_SRC", "/repo"); shutil.copytree(SRC + "/src", d + "/src")
+    shutil.copy(SRC + "/Cargo.toml", d); shutil.copy(SRC + "/Cargo.lock", d)
     p = os.path.join(d, f)
     s = open(p).read()
     occ = int(os.environ.get("MUT_OCC", "1"))
